@@ -132,12 +132,14 @@ def run_specs(ctx, binary, specs, name):
                 hand = r.handoffs[hi] if hi < len(r.handoffs) else None
                 if not spec.get('world', {}).get('env', {}).get('QMAILQUEUE'):
                     hi += 1
+                if 'probe-error' in spec.get('tag', ''):
+                    hand = None      # the child that was declared dead still runs: stand-in numbering races
             date, msgid = dataq.oracle_strings(w.snap, hand[0] if hand else b'')
             if date is None and w.snap:
                 date = b'Thu, 01 Jan 1970 00:00:00 +0000'
             mlines.append(dataq.model_line(w, streams[k] if k < len(streams) else b'', date, msgid))
             meta.append((si, k, w, hand))
-    mouts = vlib.run_batch(ctx.driver, mlines) if ctx.driver and mlines else ['NO-DRIVER'] * len(mlines)
+    mouts = dataq.run_model(ctx, mlines)
     dis, fails, plines, pmeta = [], [], [], []
     for (si, k, w, hand), mo in zip(meta, mouts):
         spec, (sc, plan, txs), r = specs[si], built[si], results[si]
@@ -192,7 +194,7 @@ def run_specs(ctx, binary, specs, name):
             continue
         final = codes[-1]
         plines.append('chk_ack %s %s | %s' % (final, ','.join(map(str, w.wlens)) or '-', ' '.join(w.q)))
-        pmeta.append((case, 'codes=%s trace=%s' % (codes, ' '.join(w.q)[:400])))
+        pmeta.append((case, 'codes=%s trace=%s' % (codes, ' '.join(w.q)[:400]), 'malformed' not in spec.get('tag', '')))
         ctx.cov['traces_validated_against_impl'] += 1
         if len(codes) > (2 if w.snap else 1):
             fails.append((case, str(codes), 'fails more-than-one-reply-to-the-message (payload run as commands)'))
@@ -205,7 +207,7 @@ def run_specs(ctx, binary, specs, name):
         if w.snap is None:
             # no 354: the client's payload went to the command loop; only the discard is checked
             continue
-        if spec.get('world', {}).get('env', {}).get('QMAILQUEUE'):
+        if spec.get('world', {}).get('env', {}).get('QMAILQUEUE') or 'probe-error' in spec.get('tag', ''):
             continue
         c1, _, f1 = dataq.split_window(wins[1], len(MSG2)) if len(wins) > 1 else ([], None, [])
         if follow != ['250', '250', '250'] or c1 != ['354', '250'] or f1 != ['221'] or len(wins) != 2:
@@ -216,8 +218,8 @@ def run_specs(ctx, binary, specs, name):
                 or b'FIRSTMESSAGE' in h2[0] or b'alice' in h2[0] + h2[1]:
             fails.append((case, repr(h2)[:300], 'fails follow-up-carries-over'))
     pouts = vlib.run_batch(ctx.driver, plines) if ctx.driver and plines else []
-    for (case, obs), po in zip(pmeta, pouts):
-        if not po.startswith('holds'):
+    for (case, obs, benign), po in zip(pmeta, pouts):
+        if not po.startswith('holds') and (benign or 'refused-although' not in po):
             fails.append((case, obs, po))
     ctx.cov['distinct_nontrivial'] += len(specs)
     if len(ctx.cov['samples']) < 4 and mlines:
